@@ -561,8 +561,10 @@ def bounded_keystone_aperture(which):
         fulls.append(f)
     cfull = np.zeros(x.shape, bool)
     cfull[ka.center_window] = ka.center_mask
-    if which == 'opd' and any(w[0].start >= w[0].stop or w[1].start >= w[1].stop for w in ka.segment_windows):
-        check('segment-wholly-off-the-grid-not-drawn', True)     # prepare_opd_bases reads the first and last sample of every window
+    if which == 'opd' and any(w[0].stop - w[0].start < 2 or w[1].stop - w[1].start < 2 for w in ka.segment_windows):
+        # prepare_opd_bases normalises each segment's coordinates by the extent of its window: segments that the edge of the grid
+        # cuts down to less than two rows or columns (aperture larger than the array) have no extent; such apertures are not drawn
+        check('segment-cut-to-nothing-by-the-grid-edge-not-drawn', True)
         return
     if which != 'opd':
         tag = {'tiling': '', 'tiling-any-segment-count': '(any-segment-count)', 'tiling-explicit-rotation': '(explicit-rotation)',
